@@ -98,7 +98,7 @@ struct curstate {
 	unsigned hop, order;
 	int lenient;
 	int nseed;
-	struct op seed[MAXK];
+	struct op seed[MAXK * 2];
 	int npath;
 	struct op path[MAXREPLAYOPS];
 };
@@ -305,9 +305,10 @@ struct utemplate {
 	struct {
 		int offset;    /* home bucket = H + offset (mod table size); offset in units, or scaled by reach if scale != 0 */
 		int scale;     /* 0: offset as is; 1: offset = reach - 1 + off; 2: offset = (2 * reach) / 3 */
-		int count;     /* >= 0 absolute; -1: reach - 1 keys; -2: reach - 2 keys */
+		int count;     /* >= 0 absolute; -1: reach - 1 keys; -2: reach - 2 keys; -3: reach keys */
 		int frozen;
 	} spec[8];
+	int temp;              /* 1: the fillers of spec[0] are put first and all but the last of them removed again before the other fillers are put */
 };
 
 static void build_from_template(struct universe *u, const struct c17_inst *in, const struct utemplate *t)
@@ -315,7 +316,7 @@ static void build_from_template(struct universe *u, const struct c17_inst *in, c
 	struct homespec hs[8];
 	uint32_t reach = in->add_range < in->hop_range ? in->add_range : in->hop_range;
 	uint32_t mask = in->table_size - 1;
-	uint32_t H = t->base_from_end ? in->table_size - (uint32_t)t->base_from_end : in->table_size / 2 - 3;
+	uint32_t H = t->base_from_end == -1 ? in->table_size - reach : t->base_from_end ? in->table_size - (uint32_t)t->base_from_end : in->table_size / 2 - 3;
 	int i, n = 0;
 	char label[64];
 	for (i = 0; i < t->nspec; i++) {
@@ -329,6 +330,8 @@ static void build_from_template(struct universe *u, const struct c17_inst *in, c
 			cnt = (int)reach - 1;
 		} else if (cnt == -2) {
 			cnt = (int)reach - 2;
+		} else if (cnt == -3) {
+			cnt = (int)reach;
 		}
 		if (cnt <= 0) {
 			continue;
@@ -348,8 +351,11 @@ static void build_from_template(struct universe *u, const struct c17_inst *in, c
 	}
 	snprintf(label, sizeof(label), "%s@%u", t->name, H & mask);
 	universe_build(u, in, hs, n, label);
+	u->has_temp = t->temp;
+	u->temp_home = hs[0].home;
 }
 
+#pragma GCC diagnostic ignored "-Wmissing-field-initializers"
 /* Complete-fixpoint universes: no frozen keys, at most two adjacent home buckets, last bucket included. */
 static const struct utemplate UT_FIX[] = {
 	{ "last+first", 1, 2, { { 0, 0, 4, 0 }, { 1, 0, 3, 0 } } },
@@ -383,31 +389,67 @@ static const struct utemplate UT_SEQ[] = {
 	{ "dense-straddle", 5, 5, { { 0, 0, -1, 1 }, { 0, 0, 2, 0 }, { 0, 1, 1, 0 }, { 0, 2, 1, 0 }, { 2, 1, 1, 0 } } },
 	/* 3 fillers@last | 2@last, 2@0, 1@last-1 */
 	{ "last-bucket", 1, 4, { { 0, 0, 3, 1 }, { 0, 0, 2, 0 }, { 1, 0, 2, 0 }, { -1, 0, 1, 0 } } },
+	/* seed script with removals.  reach fillers@H=size-reach, all but the last removed again (the survivor sits in the LAST slot, reach-1 away from
+	 * its home), then reach-1 fillers@0 | 2@last bucket, 1@0, 1@H: an insertion at the last bucket has to displace across the end of the table
+	 * while its own slot holds a foreign entry */
+	{ "foreign-tail-wrap", -1, 5, { { 0, 0, -3, 1 }, { 1, 1, -1, 1 }, { 0, 1, 2, 0 }, { 1, 1, 1, 0 }, { 0, 0, 1, 0 } }, 1 },
+	/* the same layout in the middle of the table (control) */
+	{ "foreign-tail-mid", 0, 5, { { 0, 0, -3, 1 }, { 1, 1, -1, 1 }, { 0, 1, 2, 0 }, { 1, 1, 1, 0 }, { 0, 0, 1, 0 } }, 1 },
 };
-#define N_UT_SEQ 3
+#define N_UT_SEQ 5
 
 /* ------------------------------------------------------------------ seeding */
 
 /* puts the frozen keys through the real code, each step judged; returns 0 if a seed step violated */
+static int seed_step(struct ctx *c, struct img *cur, struct jobstat *st, int lenient, struct op op)
+{
+	struct img post;
+	struct outcome o;
+	g_cur_seed[g_cur_nseed++] = op;
+	step(c, op, cur, &post, &o);
+	st->transitions++;
+	if (o.viol) {
+		report_violation(c->u, o.vclass, o.vmsg, g_cur_seed, g_cur_nseed, NULL, 0, lenient);
+		return 0;
+	}
+	if (o.ret != HASHTABLE_SUCCESS) {
+		die("seed step on filler %d refused in universe %s", op.k, c->u->label);
+	}
+	*cur = post;
+	return 1;
+}
+
 static int run_seed(struct ctx *c, struct img *cur, struct jobstat *st, int lenient)
 {
-	int i;
+	int i, last_temp = -1;
 	g_cur_nseed = 0;
+	if (c->u->has_temp) {
+		for (i = 0; i < c->u->nfrozen; i++) {
+			if (c->u->k[i].home == c->u->temp_home) {
+				struct op op = { OP_PUT, (uint8_t)i, 1, 0, 1 };
+				if (!seed_step(c, cur, st, lenient, op)) {
+					return 0;
+				}
+				last_temp = i;
+			}
+		}
+		for (i = 0; i < c->u->nfrozen; i++) {
+			if (c->u->k[i].home == c->u->temp_home && i != last_temp) {
+				struct op op = { OP_REMOVE, (uint8_t)i, 0, 0, 1 };
+				if (!seed_step(c, cur, st, lenient, op)) {
+					return 0;
+				}
+			}
+		}
+	}
 	for (i = 0; i < c->u->nfrozen; i++) {
 		struct op op = { OP_PUT, (uint8_t)i, 1, 0, 1 };
-		struct img post;
-		struct outcome o;
-		g_cur_seed[g_cur_nseed++] = op;
-		step(c, op, cur, &post, &o);
-		st->transitions++;
-		if (o.viol) {
-			report_violation(c->u, o.vclass, o.vmsg, g_cur_seed, g_cur_nseed, NULL, 0, lenient);
+		if (c->u->has_temp && c->u->k[i].home == c->u->temp_home) {
+			continue;
+		}
+		if (!seed_step(c, cur, st, lenient, op)) {
 			return 0;
 		}
-		if (o.ret != HASHTABLE_SUCCESS) {
-			die("seed put of filler %d refused in universe %s", i, c->u->label);
-		}
-		*cur = post;
 	}
 	return 1;
 }
